@@ -31,6 +31,7 @@ var importPool = []string{
 	"import rbind /VB/hostsrc /mnt/host",
 	"import bind /VB/hostsrc/sub /mnt/sub",
 	"import bind $$self/dist%20files /mnt/p%d",
+	"import rbind /run /run",
 }
 var weirdImports = []string{
 	"import bind /nonexistent/x /mnt/nx",
